@@ -16,7 +16,7 @@ def param_to_json(p):
         d["typ"] = p["typ"]
     if "default" in p:
         v = p["default"]
-        d["default"] = val_to_json(v) if not isinstance(v, ast.AST) else {"t": "ast", "v": ast.dump(v)}
+        d["default"] = val_to_json(v) if not isinstance(v, ast.AST) else {"t": "str", "v": "<ast>" + ast.dump(v)}
     return d
 
 
